@@ -41,13 +41,16 @@ func InstallHook() { installFaultHook.Do(func() { sqlwrap.SetHook(faultHook) }) 
 type hold struct {
 	mu      sync.Mutex
 	holding bool
+	allow   int // BEGINs still let through while holding
 	release chan struct{}
+	watch   bool          // signal txDone when a transaction of the actor ends (commit done / rollback)
+	txDone  chan struct{} // buffered
 }
 
 var holds sync.Map // actor -> *hold
 
 func holdHook(ev sqlwrap.Event) {
-	if ev.Kind != sqlwrap.Begin {
+	if ev.Kind != sqlwrap.Begin && ev.Kind != sqlwrap.CommitDone && ev.Kind != sqlwrap.Rollback {
 		return
 	}
 	v, ok := holds.Load(ev.Actor)
@@ -55,8 +58,24 @@ func holdHook(ev sqlwrap.Event) {
 		return
 	}
 	h := v.(*hold)
+	if ev.Kind != sqlwrap.Begin {
+		h.mu.Lock()
+		if h.watch && h.txDone != nil {
+			h.watch = false
+			select {
+			case h.txDone <- struct{}{}:
+			default:
+			}
+		}
+		h.mu.Unlock()
+		return
+	}
 	h.mu.Lock()
 	holding, ch := h.holding, h.release
+	if holding && h.allow > 0 {
+		h.allow--
+		holding = false
+	}
 	h.mu.Unlock()
 	if holding {
 		<-ch
